@@ -90,6 +90,18 @@ namespace
                     sched.schedule(at(when), std::nullopt, true);
                     break;
                 }
+                case 'v':
+                {
+                    // RELATIVE wall-clock alarm: d after max(evaluation time, wall clock) - when the graph lags, the wall clock is the later one
+                    const long ref = std::max(now, wall);
+                    const long when = ref + op.arg;
+                    long t;
+                    if (in_start) t = when < ref ? ref : when;
+                    else t = when <= ref ? std::max(now + 1, ref) : when;
+                    W->expects.push_back({t, true, now, "v" + std::to_string(op.arg) + "@" + std::to_string(now) + "/wall" + std::to_string(wall)});
+                    sched.schedule(TimeDelta{op.arg}, std::nullopt, true);
+                    break;
+                }
                 default: break;
             }
         }
@@ -326,8 +338,8 @@ void verif_enumerate(verif::Ctx &ctx)
     const bool th = ctx.thorough();
     ctx.max_samples = 400;
     // timer programs: every list of 1..2 start operations from a small menu, optionally followed by one first-evaluation script
-    const std::vector<std::string> start_menu = {"r0", "r100", "a300", "w200", "w0", "w-50", "r100,w100", "r100,a300", "w200,w-50", "a300,w200", "r100,r300", "r100,S"};
-    const std::vector<std::string> eval_menu = {"", "r50", "w-10", "w0", "w80", "L500,r50", "L500,w20", "L2000000", "L2000000,r50", "r1,L300", "r50,S"};
+    const std::vector<std::string> start_menu = {"r0", "r100", "a300", "w200", "w0", "w-50", "v150", "r100,w100", "r100,a300", "w200,w-50", "a300,w200", "r100,r300", "r100,S"};
+    const std::vector<std::string> eval_menu = {"", "r50", "w-10", "w0", "w80", "v60", "L500,r50", "L500,w20", "L500,v60", "L2000000", "L2000000,r50", "r1,L300", "r50,S"};
     std::vector<std::string> configs;
     for (auto &sm : start_menu)
         for (auto &em : eval_menu)
